@@ -1786,16 +1786,17 @@ func isIdentifierChar(r rune) bool {
 // hasCodeBeforeOnLine checks if there are non-whitespace characters on the same
 // line before the given byte index. Used to determine if a comment is inline.
 func (t *Tokenizer) hasCodeBeforeOnLine(idx int) bool {
-	// Find the start of the line containing idx
+	// Find the start of the line containing idx (the line table is sorted)
 	lineStart := 0
-	for i := len(t.lineStarts) - 1; i >= 0; i-- {
-		if t.lineStarts[i] <= idx {
-			lineStart = t.lineStarts[i]
-			break
-		}
+	if i := sort.Search(len(t.lineStarts), func(i int) bool { return t.lineStarts[i] > idx }) - 1; i >= 0 {
+		lineStart = t.lineStarts[i]
 	}
-	// Check for non-whitespace between lineStart and idx
-	for i := lineStart; i < idx && i < len(t.input); i++ {
+	if idx > len(t.input) {
+		idx = len(t.input)
+	}
+	// Check for non-whitespace between lineStart and idx, nearest first: only the blank run
+	// directly before idx is ever scanned, so many comments on a long line stay linear
+	for i := idx - 1; i >= lineStart; i-- {
 		if t.input[i] != ' ' && t.input[i] != '\t' && t.input[i] != '\r' {
 			return true
 		}
